@@ -38,7 +38,7 @@ FINDER_BOUNDS = {
     'find_reindex_ids': 'every subset of 6 annotations removed, then reindex()',
     'find_store_consistency': '12 annotations over all nine selector kinds, 3 index configurations, every single and double annotation removal, 10 other removals, 6 protect_text histories',
     'find_segmentation': 'every set of <= 3 of 8 selections over a 10-character text, milestone intervals 0/2/3; the whole text and 6 ranges of it',
-    'find_id_lookups': '10 histories (no removal, each of 4 annotations, 3 resources, 2 datasets removed) x 94 lookup strings x 6 lookup functions; 65538 keys in one dataset; one document with temporary ids loaded alone and merged',
+    'find_id_lookups': '13 histories (no removal, each of 4 annotations, 3 resources, 2 datasets removed by public id, one of each removed by temporary id) x 94 lookup strings x 6 lookup functions; 65538 keys in one dataset; one document with temporary ids loaded alone and merged',
     'find_removal_without_index': '6 configurations (one reverse index switched off each) x 8 removals on the 14-annotation store, survivors compared with the default configuration',
     'find_removal_depth': 'chains of annotations on annotations of length 50, 3000 and 30000; the first / the last of the chain is removed in a child process',
     'find_utf8': '8 texts of 1-4 byte codepoints, 5 milestone intervals, every position and every sub-selection; 6 intervals x 5 selections: iteration, lookup and positions() of a built and of a copied-and-inserted resource compared across intervals',
